@@ -3,13 +3,24 @@ From Coq Require Import List String.
 From SCC Require Import Base.Sexp Model.RunBase Model.RunPM Model.RunX86.
 From SCC Require Import Base.Sexp Model.RunBase Model.RunPM Model.RunStages.
 From SCC Require Import Model.RunFun2Core.
+From SCC Require Import Model.RunRT.
+From SCC Require Import Model.RunLin.
+From SCC Require Import Base.Sexp Model.RunBase Model.RunCheck.
 Open Scope string_scope.
 
 Definition dispatch (cmd : string) (input : string) : string :=
   match cmd with
   | "pm" => run_pm input
+  | "relay" => run_relay input
+  | "lin" => run_lin input
   | "codegen-x86" => run_codegen_x86 input
+  | "heap-x86" => run_heap_x86 input
+  | "wf-x86" => run_wf_x86 input
+  | "show-x86" => run_show_x86 input
+  | "c10-x86" => run_c10_x86 input
   | "stages" => run_stages input
   | "fun2core" => run_fun2core input
+  | "rt" => run_rt input
+  | "check" => run_check input
   | _ => "BAD - unknown command " ++ cmd ++ nl
   end.
